@@ -565,6 +565,9 @@ func init() {
 // reported here as well: a missed registration makes two HMSETs of one batch both compute the size from committed data).
 func c09BatchKeys(c *Ctx) {
 	r := c.R
+	// a clear that walks the collection must include its start key (the element with the empty name), or the element
+	// survives the clear while the size is reset (same rule as C12-K2)
+	c12StartKeyIncluded(c, "C09-N5")
 	sub := an.NewReport("C09")
 	c07T2(&Ctx{P: c.P, W: c.W, R: sub, Tier: c.Tier})
 	n := 0
